@@ -568,7 +568,7 @@ func runC18(c *Ctx) {
 	errDisciplineFor(c, "C18")
 
 	// ---------- R18.14 wire decoders start from a fresh value
-	c.Rule("R18.14", "E1", "ResourceSpec.UnmarshalProto / UnmarshalJSON decode into a value allocated in the same call: the generated vtproto decoder merges into its target (zero-valued fields keep the target's content, repeated fields are appended), so decoding into a left-over value does not give back what was encoded", 2)
+	c.Rule("R18.14", "E1", "ResourceSpec.UnmarshalProto / UnmarshalJSON decode into a value allocated in the same call: the generated vtproto decoder merges into its target (zero-valued fields keep the target's content, repeated fields are appended), so decoding into a left-over value does not give back what was encoded", 5)
 
 	for _, name := range []string{"UnmarshalProto", "UnmarshalJSON"} {
 		f := p.Method(pkgResProto, "ResourceSpec", name)
@@ -626,6 +626,21 @@ func runC18(c *Ctx) {
 		}
 
 		c.MustCut("R18.14", "decode into spec.Value ⊣ {spec.Value = new(T)}", f, decode, CutSpec{Nodes: freshValue}, 1)
+	}
+
+	// the other callers of the wire decoder hand it a local declared in the same function
+	for _, rel := range []string{"pkg/resource/meta", "pkg/resource/meta/spec", pkgStore} {
+		for _, f := range p.PkgFuncs(rel) {
+			for _, call := range p.Calls(f, pkgResProto+".ProtoUnmarshal") {
+				target := CallArgs(call)[1]
+				if mi, ok := target.(*ssa.MakeInterface); ok {
+					target = mi.X
+				}
+
+				al, isLocal := target.(*ssa.Alloc)
+				c.Check(isLocal && al.Parent() == f, "R18.14", FuncName(f)+" :: ProtoUnmarshal target is a fresh local", call.Pos(), "local declared in this call", "decodes into "+p.DescN(target, 3)+", which may hold left-over content (the vtproto decoder merges)")
+			}
+		}
 	}
 
 }
